@@ -5,6 +5,7 @@ package main
 // written, because the trace specification decides on the abstract events only.
 
 import (
+	"bytes"
 	"context"
 	"encoding/json"
 	"fmt"
@@ -21,6 +22,7 @@ type corruption struct {
 	name  string // "none" | "bit" | "burst"
 	start int    // first bit
 	mask  []byte // xor mask applied from byte start/8
+	set   []byte // or: bytes stored from byte start/8
 }
 
 func (c corruption) apply(img []byte) []byte {
@@ -30,6 +32,7 @@ func (c corruption) apply(img []byte) []byte {
 			b[c.start/8+i] ^= m
 		}
 	}
+	copy(b[c.start/8:], c.set)
 	return b
 }
 
@@ -83,7 +86,8 @@ func flips(dir, mode, outPath string) {
 	}
 	aggs := map[string]*agg{}
 	var mu sync.Mutex
-	total, skipped := 0, 0
+	total, skipped, abandoned := 0, 0, 0
+	slow := map[string]int{}
 	t0 := time.Now()
 	for li, lay := range lays {
 		// corruptions
@@ -92,6 +96,20 @@ func flips(dir, mode, outPath string) {
 		for bit := 0; bit < blockSize*8; bit++ {
 			cors = append(cors, corruption{name: "bit", start: bit, mask: []byte{1 << (bit % 8)}})
 		}
+		// targeted corruptions: checksum trailer zeroed / set to all ones, the slot zeroed, all data zeroed
+		slotOff := layoutSlot[lay] * 62
+		ones := func(n int) []byte {
+			b := make([]byte, n)
+			for i := range b {
+				b[i] = 0xff
+			}
+			return b
+		}
+		cors = append(cors,
+			corruption{name: "trailerzero", start: dataLen * 8, mask: nil, set: make([]byte, 4)},
+			corruption{name: "trailerones", start: dataLen * 8, mask: nil, set: ones(4)},
+			corruption{name: "slotzero", start: slotOff * 8, mask: nil, set: make([]byte, 62)},
+			corruption{name: "datazero", start: 0, mask: nil, set: make([]byte, dataLen)})
 		nBurst := 1000
 		if mode == "thorough" {
 			nBurst = 5000
@@ -108,7 +126,7 @@ func flips(dir, mode, outPath string) {
 			}
 			cors = append(cors, corruption{name: "burst", start: st, mask: mask})
 		}
-		ops := []opT{{"get", 1, 0}, {"update", 1, 2}, {"remove", 1, 0}, {"add", 0, 1}}
+		ops := []opT{{"get", 1, 0}, {"getro", 1, 0}, {"update", 1, 2}, {"remove", 1, 0}, {"add", 0, 1}}
 		cows := []string{"none", "empty", "partial", "valid", "invalid"}
 		var cases []caseT
 		for _, op := range ops {
@@ -127,7 +145,7 @@ func flips(dir, mode, outPath string) {
 						default:
 							stride = 16
 						}
-					} else if op.name != "get" {
+					} else if op.name != "get" && op.name != "getro" {
 						stride = 2
 					}
 					if cor.name == "bit" && (cor.start+int(seed()))%stride != 0 {
@@ -157,7 +175,7 @@ func flips(dir, mode, outPath string) {
 					blk := cor.apply(w.images[op.base])
 					w.injected = nil
 					if cor.name != "none" {
-						if crcOK(blk) {
+						if crcOK(blk) || bytes.Equal(blk, w.images[op.base]) {
 							mu.Lock()
 							skipped++
 							mu.Unlock()
@@ -179,13 +197,26 @@ func flips(dir, mode, outPath string) {
 						c := append([]byte(nil), w.images[cowImg]...)
 						c[100] ^= 0x10
 						must(w.setCow("full", c))
+					case "partial":
+						must(w.setCow("partial", w.images[cowImg]))
 					default:
 						must(w.setCow(ck, nil))
 					}
 					setup := event{"ev": "Setup", "lay": lay, "init_img": op.base}
 					r.obsInto(setup)
 					a := &actor{name: "x", w: w}
-					ctx0, cancel := context.WithTimeout(context.Background(), 20*time.Second)
+					combo := op.name + ":" + ck
+					mu.Lock()
+					giveUp := slow[combo] >= 12
+					mu.Unlock()
+					if giveUp { // the operation spins until its deadline for this combination: do not repeat it thousands of times
+						mu.Lock()
+						abandoned++
+						mu.Unlock()
+						continue
+					}
+					tStart := time.Now()
+					ctx0, cancel := context.WithTimeout(context.Background(), 3*time.Second)
 					ctx := context.WithValue(ctx0, ctxKey{}, a)
 					var res string
 					var val int
@@ -193,10 +224,18 @@ func flips(dir, mode, outPath string) {
 					if op.name == "get" {
 						actorName = "r1"
 						res, val, _ = w.lookup(ctx)
+					} else if op.name == "getro" {
+						actorName = "ro"
+						res, val, _ = w.lookupRO(ctx)
 					} else {
 						res, val, _ = w.write(ctx, op.name, op.img)
 					}
 					cancel()
+					if time.Since(tStart) > 2500*time.Millisecond {
+						mu.Lock()
+						slow[combo]++
+						mu.Unlock()
+					}
 					run := event{"ev": "Run", "actor": actorName, "img": op.img, "res": res, "val": val}
 					r.obsInto(run)
 					reg := "clean"
@@ -236,5 +275,5 @@ func flips(dir, mode, outPath string) {
 		o.emit(g.run)
 	}
 	fmt.Fprintf(os.Stderr, "flips: %d cases, %d distinct, %.1fs\n", total, len(aggs), time.Since(t0).Seconds())
-	o.emit(event{"ev": "TraceStart", "name": "_stats", "count": total, "skipped_crc_valid": skipped})
+	o.emit(event{"ev": "TraceStart", "name": "_stats", "count": total, "skipped_crc_valid": skipped, "abandoned_slow": abandoned})
 }
